@@ -539,7 +539,7 @@ end compiled
 /-! ### 10. control-flow integrity: the VM fetches opcodes only at instruction starts (round 4) -/
 
 section cfi
-open UgoVerif.VM UgoVerif.Compile UgoVerif.Proofs.C16 UgoVerif.Props.C05
+open UgoVerif.VM UgoVerif.VM.Cfi UgoVerif.Compile UgoVerif.Proofs.C16 UgoVerif.Props.C05
 
 /-- **exec_at_starts** (`Proofs/ExecAtStartsRun.lean`; the general statement, for ANY code memory):
     in a run of the VM model that starts at an instruction boundary of well-formed code — `Good s0`:
@@ -555,7 +555,7 @@ open UgoVerif.VM UgoVerif.Compile UgoVerif.Proofs.C16 UgoVerif.Props.C05
 theorem exec_at_starts (F : FloatOps) {s0 : State} (h0 : Good s0) (s : State) (hb : Boundary F s0 s) :
     0 ≤ s.ip + 1 ∧ ∃ fa c fr, (s.frames[s.curFrame]!).fn = some fa ∧ s.heap[fa]? = some (Cell.fn c fr) ∧
       Bd (s.codes[c]!).insts (s.ip + 1).toNat :=
-  UgoVerif.VM.exec_at_starts F h0 s hb
+  UgoVerif.VM.Cfi.exec_at_starts F h0 s hb
 
 /-- one instruction keeps it (`step` ending with `continue`) … -/
 theorem exec_at_starts_step (F : FloatOps) {s s' : State} (h : Good s) (hstep : exec (step F) s = (.ok .next, s')) :
@@ -621,7 +621,7 @@ theorem exec_at_starts_compiled (builtins : List (String × Nat)) (hbi : Builtin
   have h0 : Safe0 (loaded bc) := safe0_loaded bc (fnList_wfCode bc hwf ht)
   have hg : Good s1 := good_prologue g args h0 hpro
   intro s hb _
-  exact UgoVerif.VM.exec_at_starts F hg s hb
+  exact UgoVerif.VM.Cfi.exec_at_starts F hg s hb
 
 /-- a function without SETUPTRY satisfies `TryStrict` -/
 theorem tryStrict_of_noTry (f : CFn) (h : ∀ b ∈ f.insts.toList, b.toNat ≠ Compile.OpSetupTry) : TryStrict f := by
